@@ -23,6 +23,8 @@ func init() {
 		Run: runC20,
 	})
 	addMutants("C20",
+		mutant{"sequencer parks the raw slot", "slot_sequencer.go",
+			"\tslot, err = s.offsetter.Add(slot)", "\t_, err = s.offsetter.Add(slot)", "C20-R3"},
 		mutant{"bytes counted for rejected duplicates", "slot_sequencer.go", "\t\tif ok && err == nil {\n\t\t\ts.bytes += slot.Length\n\t\t}", "\t\tif err == nil {\n\t\t\ts.bytes += slot.Length\n\t\t}", "C20-R1"},
 		mutant{"bytes not released on pop", "slot_sequencer.go", "\t\ts.bytes -= slot.Length\n", "", "C20-R1"},
 		mutant{"reset keeps the byte count", "slot_sequencer.go", "\ts.container.Reset()\n\ts.bytes = 0", "\ts.container.Reset()", "C20-R1"},
@@ -309,7 +311,36 @@ func runC20(c *Ctx) {
 	}
 
 	// ------------------------------------------------------------------------------------------------ R3
-	c.rule("C20-R3", "offsetter pairing and ordered container", 12)
+	c.rule("C20-R3", "offsetter pairing and ordered container", 13)
+	{
+		// Push parks the slot as the offsetter shifted it: what the container stores is the result of Add on the caller's
+		// slot (Pop subtracts the discards recorded since; parking the raw slot makes that subtraction address other bytes)
+		push := sm("Push")
+		var add, cpush *ssa.Call
+		for _, call := range callsToFn(push, om("Add")) {
+			add, _ = call.(*ssa.Call)
+		}
+		for _, call := range callsToFn(push, cm("Push")) {
+			cpush, _ = call.(*ssa.Call)
+		}
+		good := add != nil && cpush != nil
+		why := "Push does not shift the slot with the offsetter before parking it"
+		if good {
+			shifted := extractOf(add, 0)
+			fromCaller := false
+			for _, prm := range push.Params {
+				if resolveThroughLocal(add.Call.Args[1]) == ssa.Value(prm) || resolveCell(add.Call.Args[1]) == ssa.Value(prm) {
+					fromCaller = true
+				}
+			}
+			parked := len(cpush.Call.Args) == 3 && resolveThroughLocal(cpush.Call.Args[2]) == shifted
+			if !(fromCaller && parked) {
+				good = false
+				why = fmt.Sprintf("Push must park the slot returned by the offsetter's Add for the caller's slot (Add on the caller's slot=%v, container receives the shifted slot=%v)", fromCaller, parked)
+			}
+		}
+		c.check(good, push, "park shifted slot", push.Pos(), "the container stores the slot as shifted by the offsetter", why+": once a packet in front was discarded, Pop translates an index that was never shifted and returns bytes of other packets")
+	}
 	{
 		pop := sm("Pop")
 		var off *ssa.Call
